@@ -43,6 +43,8 @@ type c03Scn struct {
 	VC     string `json:"vc"`     // honest side VerifyConnection: "" | ok | reject
 	Tamper string `json:"tamper"` // DTLS 1.3 flight tamper of the rogue side ("" = none)
 	MTU    int    `json:"mtu"`    // 0 = default; thorough tier repeats every scenario with fragmented flights
+	Key    string `json:"key"`    // scheme_confusion: key type of the presented (victim's) certificate: ecdsa | rsa | ed25519
+	Claim  string `json:"claim"`  // scheme_confusion: family of the signature scheme the rogue claims: ed25519 | ecdsa | rsa
 }
 
 type c03Alert struct {
@@ -138,7 +140,9 @@ func (s c03Scn) configs(obs *c03Obs) (*dtlsConfig, *dtlsConfig) {
 	}
 	wrongPSK := func([]byte) ([]byte, error) { return []byte{0xAB, 0xC1, 0x24}, nil }
 	signer := func(k crypto.PrivateKey) crypto.Signer { return k.(crypto.Signer) } //nolint:forcetypeassert
-	if s.Honest == "client" {                                                      // rogue server
+	if s.Rogue == "scheme_confusion" {
+		c03ConfusionConfigs(s, c, sv)
+	} else if s.Honest == "client" { // rogue server
 		switch s.Rogue {
 		case "honest":
 		case "wrong_ca":
@@ -322,6 +326,9 @@ func c03ID(s c03Scn) string {
 	if s.MTU > 0 {
 		id += fmt.Sprintf("/mtu=%d", s.MTU)
 	}
+	if s.Key != "" {
+		id += "/key=" + s.Key + "/claim=" + s.Claim
+	}
 
 	return id
 }
@@ -407,6 +414,10 @@ func c03Scenarios() []c03Scn {
 				}
 			}
 		}
+	}
+
+	for _, sc := range c03ConfusionScenarios() {
+		add(sc)
 	}
 
 	return out
